@@ -99,6 +99,27 @@ CLAIMED = {
             "Exploration.",
             "names never contain ' <= ' / ' > ' / line breaks; any exception counts as a refusal",
             "DESIGN.md section 3, C19"),
+    "C06": ("property-based testing (Hypothesis) of real fits/paths with weight snapshots around every proximal step and "
+            "metamorphic input perturbation at every history point",
+            "During generated fits and paths of the 5 sparse estimators the weights right after each optimiser step and "
+            "after the model's shrinkage are compared with the reference proximal step at threshold alpha x current "
+            "learning rate; at every history point get_selection must equal the non-zero rows, first-layer rows of "
+            "unselected features must be zero, perturbing unselected columns (up to 1e6) must leave predict_proba "
+            "bit-identical, declared groups must be whole and groups_ the declared list completed by singletons. "
+            "Exploration.",
+            "reference proximal operators of C05; history points: every 4th training step, every path step, end of fit/path",
+            "DESIGN.md section 3, C06"),
+    "C07": ("property-based testing (Hypothesis) of real paths with compute_val_score wrapped; replay of the documented "
+            "best-weights rule on the recorded step snapshots; differential runs for out-of-range arguments",
+            "Generated paths (all sparse estimators, alphas incl. 0, multipliers, min_features, keep_threshold, patience, "
+            "batch sizes, computed/precomputed affinity, dynamic) must terminate within the bound implied by the "
+            "geometric schedule, return four histories of equal length with exactly geometric alphas, counts/penalties/"
+            "scores equal to the recorded end-of-step state, stop at min_features, return the best weights selected by "
+            "the documented rule and restore them; out-of-range arguments must warn and behave exactly like the "
+            "documented default passed explicitly. Exploration.",
+            "termination is checked as bounded liveness (validation-score call budget); alpha=0 may only end in a "
+            "ValueError or a terminating path; running-best reading of the best-weights rule",
+            "DESIGN.md section 3, C07"),
 }
 
 NOT_YET = {}
